@@ -135,6 +135,7 @@ func UnmarshalWithKeys(data []byte, v any) ([]string, error) {
 	}
 
 	d.init(data)
+	d.lastKeys = nil
 	err = d.unmarshal(v)
 	if err != nil {
 		return nil, err
@@ -169,6 +170,7 @@ func UnmarshalValidWithKeys(data []byte, v any) ([]string, error) {
 	d.scan.bytes = 0
 
 	d.init(data)
+	d.lastKeys = nil
 	err := d.unmarshal(v)
 	if err != nil {
 		return nil, err
